@@ -69,7 +69,7 @@ def k3_search(contract, budget=3000):
            'ensures': list(contract.ensures), 'raises': contract.raises,
            'loops': {str(k): {'lemmas': v.get('lemmas', [])} for k, v in contract.loops.items()},
            'own_names': spec.get('own_names', []), 'budget': budget,
-           'children': spec.get('children'),
+           'children': spec.get('children'), 'probe_values': spec.get('probe_values'),
            'seed': int(os.environ.get('VERIF_SEED', '0') or 0)}
     fd, path = tempfile.mkstemp(prefix='pyvc-k3job-', suffix='.json')
     try:
